@@ -57,7 +57,12 @@ Returned(c, T) ==
   LET out == c.out IN
   IF AlreadyFits(T) THEN
        \* "returned unchanged": equal content (object identity is logged but not demanded)
-       IF ~Unchanged(T, out) THEN <<"fail", "IdentityWhenFits", "changed">>
+       \* through the splitter the table comes back as PDB text: the same atoms, identifiers and fields in the PDB
+       \* vocabulary (no label_* items, charge compared by value)
+       IF c.kind = "split"
+       THEN (IF Len(out) = Len(T) /\ \A i \in Idx(T) : IdDiff(T[i], out[i]) = "ok" /\ PayloadDiff(T[i], out[i]) = "ok"
+             THEN <<"ok">> ELSE <<"fail", "IdentityWhenFits", "changed">>)
+       ELSE IF ~Unchanged(T, out) THEN <<"fail", "IdentityWhenFits", "changed">>
        ELSE <<"ok">>
   ELSE IF ~Fits(out) THEN
        <<"fail", "FitsOrValueError",
